@@ -46,6 +46,11 @@ int main(int argc, char** argv) {
                 auto it = live.begin(); std::advance(it, g() % live.size()); int h = *it; live.erase(it);
                 ev.m_sim.reset(h); ev.releaseQubit(h); hist += "R" + std::to_string(h) + " ";
                 if (g() % 3 == 0) { ev.m_sim.reset(h); ev.releaseQubit(h); hist += "R" + std::to_string(h) + " "; }
+                else if (g() % 2 == 0 && !live.empty()) {   // the same handle released again AFTER another release (handle shared by two objects destroyed at different times)
+                    auto it2 = live.begin(); std::advance(it2, g() % live.size()); int k = *it2; live.erase(it2);
+                    ev.m_sim.reset(k); ev.releaseQubit(k); hist += "R" + std::to_string(k) + " ";
+                    ev.m_sim.reset(h); ev.releaseQubit(h); hist += "R" + std::to_string(h) + " ";
+                }
                 std::set<int> seen; for (int f : ev.m_freeQubitIndices) { if (!seen.insert(f).second) { fail("releaseQubit.free_list_stays_duplicate_free", hist, "index " + std::to_string(f) + " is on the free list twice"); s = steps; break; } }
             } else if (op == 3) {
                 auto it = live.begin(); std::advance(it, g() % live.size()); int h = *it;
